@@ -41,7 +41,8 @@ def required_cells(tier):
             "commuting-order": 2, "summed-sd": 1, "trivial-pt": 1,
             "kind:rotdeph": 2, "via-import:file": 1, "via-import:simple": 1,
             "controls:stacked": 1, "transform:one-sided": 2,
-            "history:tensor-replaced": 2}
+            "history:tensor-replaced": 2, "feed:buffer": 3,
+            "feed:fortran": 3, "env:time-dependent": 3}
 
 
 def cases(tier, seed):
@@ -104,9 +105,20 @@ def run_ancilla(case):
         else:
             env = ancilla.random_env(rng, d, e, kind)
             env.is_dephasing = (kind == "dephasing")
+            if (i + j) % 6 == 1 and kind in ("unitary", "channel",
+                                             "dephasing") and nsteps >= 2:
+                # time-dependent environment: other joint maps in some steps
+                other = ancilla.random_env(rng, d, e, kind)
+                env.step_kraus = {k: other.kraus for k in range(nsteps)
+                                  if k % 2 == 1}
+                cells.append("env:time-dependent")
             rank3, transform = _pt_for_env(rng, env, nsteps, dt, i + j)
+            feed = ["copy", "buffer", "fortran"][(i + j) % 3] \
+                if caps == "explicit" else "copy"
+            if feed != "copy":
+                cells.append("feed:" + feed)
             pt = build_pt(env, nsteps, dt if (i + j) % 2 else None, rank3,
-                          transform, caps)
+                          transform, caps, feed)
         envs.append(env)
         pts.append(pt)
         desc.append(dict(kind=kind, e=e, rank3=rank3,
@@ -248,14 +260,14 @@ def run_ancilla(case):
                                 "controls": cdesc, "err": err})}
 
 
-def build_pt(env, nsteps, dt, rank3, transform, caps):
+def build_pt(env, nsteps, dt, rank3, transform, caps, feed="copy"):
     """Process tensor of an ancilla environment; for computed caps the last
     tensor is closed with the environment trace (future bond dimension 1), as
     SimpleProcessTensor.compute_caps requires."""
     import oqupy
     if caps == "explicit":
         return ancilla.build_process_tensor(env, nsteps, dt=dt, rank3=rank3,
-                                            transform=transform)
+                                            transform=transform, feed=feed)
     tens = ancilla.rank3_tensors(env, nsteps) if rank3 \
         else env.tensors(nsteps)
     tr = np.eye(env.e).reshape(-1).astype(complex)
